@@ -246,6 +246,11 @@ def main(tier, seed):
     except Exception: rep.error('C11 memoiser: ' + traceback.format_exc()[-1500:])
     try: malformed(rep, tier)
     except Exception: rep.error('C11 malformed: ' + traceback.format_exc()[-2000:])
+    try:
+        # no internal desynchronisation error at call time: the explanation path inspects the very item the generated check rejected
+        from props import errpath
+        errpath.safe(errpath.add_enumerators, rep, 'C11.errpath')
+    except Exception: rep.error('C11 errpath: ' + traceback.format_exc()[-1500:])
     try: late_refs(rep)
     except Exception: rep.error('C11 late_refs: ' + traceback.format_exc()[-2000:])
     try:
